@@ -376,8 +376,14 @@ func MkCert(tmpl, parent *x509.Certificate, subjectKey, signerKey int) []byte {
 
 // RootTemplate is the self-signed CA template of universe key k with the given window.
 func RootTemplate(k int, nb, na time.Time) *x509.Certificate {
-	return &x509.Certificate{SubjectKeyId: vf.Pkix(k), Subject: pkix.Name{CommonName: "root"}, SerialNumber: big.NewInt(1),
-		NotBefore: nb, NotAfter: na, IsCA: true, BasicConstraintsValid: true}
+	// named like the roots the library mints (rotation/roots.go): subject and DNS name are the key ID of the root's
+	// key, so two roots never share a subject
+	keyId, err := nodeenrollment.KeyIdFromPkix(vf.Pkix(k))
+	if err != nil {
+		panic(err)
+	}
+	return &x509.Certificate{SubjectKeyId: vf.Pkix(k), AuthorityKeyId: vf.Pkix(k), Subject: pkix.Name{CommonName: keyId}, DNSNames: []string{keyId, nodeenrollment.CommonDnsName},
+		SerialNumber: big.NewInt(1), NotBefore: nb, NotAfter: na, IsCA: true, BasicConstraintsValid: true}
 }
 
 // MkRoot builds a stored-form root for universe key k.
